@@ -85,7 +85,8 @@ def rtsafe_(f, x0, bracket, settings):
     x0 = np.clip(x0, bracket[0], bracket[1])
 
     # check that root is bracketed
-    x0 = np.where(fl*fh < 0.0,
+    # (compare signs rather than the product, which can underflow to zero)
+    x0 = np.where(np.sign(fl)*np.sign(fh) < 0.0,
                   x0,
                   np.nan)
 
